@@ -90,7 +90,7 @@ def write_input_file(case, path=None, names=None, layout='case'):
 
 
 def execute(case, budget=6000, cpu_s=3.0, sched=None, names=None, prompt=None, refuse_at='case',
-            layout='case', requested=None, store=None, again=None, again_always=False):
+            layout='case', requested=None, store=None, again=None, again_always=False, solver=None):
     """Run one case at solver level (real Solver, real InputStore on a real file).
     store: an existing InputStore to solve on again (histories on one store); its current content is what is supplied."""
     classes, enums = synth.build_classes(case['world'])
@@ -123,7 +123,7 @@ def execute(case, budget=6000, cpu_s=3.0, sched=None, names=None, prompt=None, r
     run.requested, run.field_names = list(req), list(case['field_names'])
     run.prompting = bool(prompt)
     with seams.installed(rec), core.cpu_alarm(cpu_s):
-        s = hb_solver.Solver(store, classes, prompt=pf)
+        s = solver if solver is not None else hb_solver.Solver(store, classes, prompt=pf)
         try:
             ok = s.solve(list(req), list(case['field_names']))
             if again is not None and (again_always or not ok):
@@ -155,6 +155,41 @@ def execute(case, budget=6000, cpu_s=3.0, sched=None, names=None, prompt=None, r
         run.supplied = sorted(n for n in (f'{sec}.{k}' for sec, k in run.config_items) if n in case['persona'])
     run.store = store
     return run
+
+
+def execute_repair(case, seed):
+    """History on ONE Solver: a solve that aborts on a value in the file that its input rejects; the caller repairs the value
+    through the store and calls solve() on the same Solver again.  -> (run2 or None, case2)"""
+    import copy
+    rng = core.Rng(core.h64('repair', seed))
+    c1 = copy.deepcopy(case)
+    c1['prompt'] = False
+    run1 = execute(c1)
+    if run1.outcome != 'abort' or run1.exc is None or run1.exc[0] != 'InvalidInput' or not run1.rec.solvers:
+        return None, c1
+    # the line whose evaluation raised is in no queue any more; calling solve() again brings it back only if it belongs to a
+    # form that is requested again (forms loaded on demand are not re-added) - other histories have no defined outcome
+    attempts = [e[1] for e in run1.rec.events if e[0] == 'A']
+    if not attempts or attempts[-1].split('.')[0] not in run1.requested:
+        return None, c1
+    fs_ = next((f for f in case['world']['forms'] if f['name'] == attempts[-1].split('.')[0].split(':')[0]), None)
+    if fs_ is None or attempts[-1].split('.')[1] not in [l['name'] for l in synth.lines_of(fs_)[0]]:
+        return None, c1         # (only required lines are queued again when a form is re-added)
+    case2 = copy.deepcopy(c1)
+    for q, p_ in sorted(case2['persona'].items()):
+        if p_['invalid'] and q in c1['file']:
+            spec = input_spec_of(case['world'], q)
+            txt, typed = gen.render_value(rng, spec)
+            if '%' in txt or '\n' in txt:
+                txt, typed = '1', typed
+                continue
+            try:
+                run1.store[q] = txt
+            except Exception:
+                return None, c1
+            case2['persona'][q] = {'text': txt, 'typed': typed, 'invalid': False}
+    run2 = execute(case2, store=run1.store, solver=run1.rec.solvers[-1])
+    return run2, case2
 
 
 def execute_reuse(case, seed):
@@ -567,21 +602,47 @@ def execute_cli(case, cli=None, budget=6000, names=None, path=None, solution_pat
     if names is not False:
         write_input_file(case, path=path, names=names, layout=layout)
     supplied0 = names if names is not False else cli.get('supplied0', [])
-    persona = case['persona']
+    persona = dict(case['persona'])
+    asked = {}
 
     def answer(name):
         p = persona.get(name)
         if p is None:
             raise core.HarnessError(f'prompt for {name}, which the persona does not know')
+        asked[name] = asked.get(name, 0) + 1
+        if p.get('invalid') and cli.get('fickle'):
+            # asked for something whose value in the file is unreadable: a user types a readable one
+            spec = input_spec_of(case['world'], name)
+            r_ = core.Rng(core.h64('fickle-valid', name))
+            for _ in range(8):
+                txt, typed = gen.render_value(r_, spec)
+                if '\n' not in txt and '%' not in txt:
+                    persona[name] = p = {'text': txt, 'typed': typed, 'invalid': False}
+                    break
+        if asked[name] > 1 and cli.get('fickle') and not p.get('invalid'):
+            # asked the same question again, the user gives another (valid) answer: what counts is the last one
+            spec = input_spec_of(case['world'], name)
+            r_ = core.Rng(core.h64('fickle', name, asked[name]))
+            for _ in range(8):
+                txt, typed = gen.render_value(r_, spec)
+                if typed != p['typed'] and '\n' not in txt and '%' not in txt and txt.strip() != '':
+                    persona[name] = p = {'text': txt, 'typed': typed, 'invalid': False}
+                    break
         return p['text']
 
     req = list(case['requested'])
     if cli.get('form_order') is not None:
         core.Rng(core.h64('form_order', cli['form_order'])).shuffle(req)
     cli.setdefault('prompt', case['prompt'])
-    return cli_session(synth.SYNTH_YEAR, req, path, answer, case['sched'], cli, supplied0,
-                       year_forms={synth.SYNTH_YEAR: classes}, dup=case.get('dup', False), budget=budget,
-                       solution_path=solution_path)
+    try:
+        run = cli_session(synth.SYNTH_YEAR, req, path, answer, case['sched'], cli, supplied0,
+                          year_forms={synth.SYNTH_YEAR: classes}, dup=case.get('dup', False), budget=budget,
+                          solution_path=solution_path)
+    except (core.RunTimeout, core.BudgetExceeded) as e:
+        e.final_persona = persona
+        raise
+    run.final_persona = persona
+    return run
 
 
 def cli_session(year, requested, path, answer, sched, cli, supplied0, year_forms=None, dup=False, budget=6000,
@@ -648,7 +709,10 @@ def cli_session(year, requested, path, answer, sched, cli, supplied0, year_forms
     else:
         run.outcome = 'abort'
         run.exc = (type(exc).__name__, str(exc)[:300])
-    run.supplied = sorted(set(supplied0) | set(m.answered))
+    # what the user supplied: the file, plus the questions at which the scripted user really typed an answer (an "answer"
+    # that the prompt function makes up when input ends is not one)
+    typed = {name for _, name, what in stdin.log if what == 'answer'}
+    run.supplied = sorted(set(supplied0) | (set(m.answered) & typed))
     try:
         with open(path, newline='') as f:
             run.file_after = f.read()
